@@ -35,49 +35,49 @@ type Violation struct {
 
 // Result is what a child writes at the end.
 type Result struct {
-	Property    string           `json:"property"`
-	Part        string           `json:"part"`
-	Tier        string           `json:"tier"`
-	Seed        int64            `json:"seed"`
-	Batch       int              `json:"batch"`
-	NBatch      int              `json:"nbatch"`
-	Complete    bool             `json:"complete"`
-	Evaluations int64            `json:"evaluations"`
-	Nontrivial  []uint64         `json:"nontrivial"`
-	Counters    map[string]int64 `json:"counters"`
-	Sets        map[string][]string `json:"sets"`
-	Samples     []any            `json:"samples"`
-	Violations  []Violation      `json:"violations"`
-	Inconclusive []string        `json:"inconclusive"`
-	Cross       map[string]int64 `json:"cross_observations"`
-	Exhaustive  bool             `json:"exhaustive"`
-	WallS       float64          `json:"wall_s"`
+	Property     string              `json:"property"`
+	Part         string              `json:"part"`
+	Tier         string              `json:"tier"`
+	Seed         int64               `json:"seed"`
+	Batch        int                 `json:"batch"`
+	NBatch       int                 `json:"nbatch"`
+	Complete     bool                `json:"complete"`
+	Evaluations  int64               `json:"evaluations"`
+	Nontrivial   []uint64            `json:"nontrivial"`
+	Counters     map[string]int64    `json:"counters"`
+	Sets         map[string][]string `json:"sets"`
+	Samples      []any               `json:"samples"`
+	Violations   []Violation         `json:"violations"`
+	Inconclusive []string            `json:"inconclusive"`
+	Cross        map[string]int64    `json:"cross_observations"`
+	Exhaustive   bool                `json:"exhaustive"`
+	WallS        float64             `json:"wall_s"`
 }
 
 // Runner is the per-test handle.
 type Runner struct {
-	T        *testing.T
-	Prop     string
-	Part     string
-	Tier     string
-	Seed     int64
-	Batch    int
-	NBatch   int
+	T         *testing.T
+	Prop      string
+	Part      string
+	Tier      string
+	Seed      int64
+	Batch     int
+	NBatch    int
 	ReplayIdx int // -1 unless replaying
-	Verbose  bool
+	Verbose   bool
 
-	mu       sync.Mutex
-	res      Result
-	nt       map[uint64]struct{}
-	sets     map[string]map[string]struct{}
-	journal  *os.File
-	outPath  string
-	start    time.Time
+	mu         sync.Mutex
+	res        Result
+	nt         map[uint64]struct{}
+	sets       map[string]map[string]struct{}
+	journal    *os.File
+	outPath    string
+	start      time.Time
 	maxSamples int
-	sigSeen  map[string]int
-	CurIdx   int
-	completed bool
-	CurCase  any
+	sigSeen    map[string]int
+	CurIdx     int
+	completed  bool
+	CurCase    any
 }
 
 func envInt(name string, def int) int {
@@ -100,18 +100,18 @@ func Start(t *testing.T, prop, part string) *Runner {
 	}
 	r := &Runner{
 		T: t, Prop: prop, Part: part,
-		Tier:      os.Getenv("VERIF_TIER"),
-		Seed:      int64(envInt("VERIF_SEED", 1)),
-		Batch:     envInt("VERIF_BATCH", 0),
-		NBatch:    envInt("VERIF_NBATCH", 1),
-		ReplayIdx: envInt("VERIF_REPLAY_IDX", -1),
-		Verbose:   os.Getenv("VERIF_VERBOSE") != "",
-		nt:        map[uint64]struct{}{},
-		sets:      map[string]map[string]struct{}{},
-		sigSeen:   map[string]int{},
-		start:     time.Now(),
+		Tier:       os.Getenv("VERIF_TIER"),
+		Seed:       int64(envInt("VERIF_SEED", 1)),
+		Batch:      envInt("VERIF_BATCH", 0),
+		NBatch:     envInt("VERIF_NBATCH", 1),
+		ReplayIdx:  envInt("VERIF_REPLAY_IDX", -1),
+		Verbose:    os.Getenv("VERIF_VERBOSE") != "",
+		nt:         map[uint64]struct{}{},
+		sets:       map[string]map[string]struct{}{},
+		sigSeen:    map[string]int{},
+		start:      time.Now(),
 		maxSamples: 4,
-		outPath:   os.Getenv("VERIF_OUT"),
+		outPath:    os.Getenv("VERIF_OUT"),
 	}
 	if r.Tier == "" {
 		r.Tier = "quick"
